@@ -48,6 +48,14 @@ class TypeScriptSRPAnalyzer(TypeScriptBaseAnalyzer):
             root_node, "abstract_class_declaration"
         )
 
+    @staticmethod
+    def _header_node(class_node: Any) -> Any:
+        """Node whose position is reported: the `class` keyword (decorators precede it inside the class node)."""
+        for child in class_node.children:
+            if child.type in ("class", "abstract"):
+                return child
+        return class_node
+
     def analyze_class(self, class_node: Any, source: str, config: SRPConfig) -> dict[str, Any]:
         """Analyze a TypeScript class for SRP metrics.
 
@@ -72,6 +80,6 @@ class TypeScriptSRPAnalyzer(TypeScriptBaseAnalyzer):
             "method_count": method_count,
             "loc": loc,
             "has_keyword": has_keyword,
-            "line": class_node.start_point[0] + 1,
-            "column": class_node.start_point[1],
+            "line": self._header_node(class_node).start_point[0] + 1,
+            "column": self._header_node(class_node).start_point[1],
         }
